@@ -26,7 +26,22 @@ class C07(G.AutoImpBase):
     id = "C07"
     driver = "C07"
     lean_modules = ["Pfb.C07.Props"]
-    theorems = []
+    theorems = [
+        "Pfb.C07.C07_success_heads_bound",
+        "Pfb.C07.C07_success_resolves",
+        "Pfb.C07.C07_provenance",
+        "Pfb.C07.C07_ambiguous_symbol",
+        "Pfb.C07.C07_ambiguous",
+        "Pfb.C07.C07_unknown_symbol",
+        "Pfb.C07.C07_unknown",
+        "Pfb.C07.D15_empty_tuple_asserts",
+        "Pfb.C07.Witness.toy_sound",
+        "Pfb.C07.Witness.alias_registry_witness",
+        "Pfb.AutoImp.Reach.resolved_stable",
+        "Pfb.AutoImp.walk_stable",
+        "Pfb.AutoImp.foldSyms_true",
+        "Pfb.AutoImp.autoImportSymbol_true_headBound",
+    ]
     rule = ("same history stream as C06 (harness/gen_c06.py) with its own seed; the oracle executes the code in a forked child "
             "after every successful call; a case is non-trivial when at least one import statement was really executed")
     trusted_base = ["CPython's import system (importlib) and CPython's name resolution (NameError) are the reference",
